@@ -5,6 +5,7 @@ var Registry = map[string]func(tier string) int{
 	"C03": C03,
 	"C08": C08,
 	"C10": C10,
+	"C13": C13,
 	"C15": C15,
 	"C16": C16,
 }
